@@ -26,9 +26,9 @@ type c07 struct{}
 type c07Case struct {
 	U           rig.UniverseSpec `json:"universe"`
 	ContentType string           `json:"content_type"`
-	BodyB64     []byte           `json:"body"` // raw body bytes (base64 in JSON)
-	Class       string           `json:"class"` // generator class
-	Expect      string           `json:"expect"` // "decodable" | "undecodable" | "ambiguous" per the independent decoder
+	BodyB64     []byte           `json:"body"`              // raw body bytes (base64 in JSON)
+	Class       string           `json:"class"`             // generator class
+	Expect      string           `json:"expect"`            // "decodable" | "undecodable" | "ambiguous" per the independent decoder
 	Invalid     []bool           `json:"invalid,omitempty"` // per operation: fails validation against the gateway schema (decided at exec time too)
 	Canary      gen.Op           `json:"canary"`
 }
